@@ -34,7 +34,7 @@ TRUSTED = ["CPython 3.12 as /venv/bin/python executes the printed source; utils.
            "translate/minipy.py is checked on every program)"]
 ASSUMPTIONS = ["MiniPy is deliberately UNDEFINED (MiniPyTypeError) on dynamically typed uses that Python accepts, and these are "
                "never generated: str() of a non-string inside an f-string; iterating / joining / unpacking / extending with a str "
-               "or a tuple (for, comprehensions, zip, dict.fromkeys, sorted); list('abc'); 'abc'[0]; 'ab' * n and n * seq; "
+               "or a tuple (for, comprehensions, zip, dict.fromkeys, sorted); list('abc'); 'abc'[0]; "
                "bool used as a number (True + 1, '-' * True, True > 0); ordering of strings or lists with >; "
                "dict.fromkeys / sorted(key=len) of lists whose items are not strings; a bridge theorem can never go through "
                "such a use (its conclusion is a value or a named exception)",
@@ -161,7 +161,12 @@ class G:
 
     def e_str(self, t, scope, d):
         rng = self.rng
-        c = rng.choice(["fmt", "fmt", "replace", "join", "slice", "cond", "lstrip", "repeat", "add", "index", "andor", "var"])
+        c = rng.choice(["fmt", "fmt", "replace", "join", "slice", "cond", "lstrip", "repeat", "add", "index", "andor", "var", "mul"])
+        if c == "mul":
+            a = self.e(S, scope, d)
+            if a[0] == "EStr":                   # a literal left operand of * is the one-character repetition form
+                a = ["EAdd", a, ["EStr", ""]]
+            return ["EMul", a, self.maybe_fault([S, NONE, L(S)], scope, d) or ["ENat", rng.choice([0, 1, 2, 3])]]
         if c == "fmt":
             parts, last_lit = [], False
             for _ in range(rng.choice([0, 1, 2, 3, 4])):
@@ -222,7 +227,8 @@ class G:
             a = self.e(N, scope, d)
             if a[0] in ("ENat", "EStr", "EBool", "ENone"):   # a literal left operand of * is the string-repetition form
                 a = ["EAdd", a, ["ENat", 0]]
-            return ["EMul", a, self.maybe_fault([NONE, L(N)], scope, d) or ["ENat", rng.choice([0, 1, 2, 3])]]
+            b = self.maybe_fault([NONE], scope, d) or ["ENat", rng.choice([0, 1, 2, 3])]
+            return ["EMul", a, b]
         if c == "nest":
             return ["ENestLevel", self.e("any", scope, d)]
         if c == "cond":
@@ -250,7 +256,7 @@ class G:
             return ["EIn", needle, self.e(S, scope, d)]
         if c == "in_list":
             u = rng.choice([S, S, N, B, L(S)])
-            hay = self.maybe_fault([N, NONE, B], scope, d) or self.e(L(u), scope, d)
+            hay = self.maybe_fault([N, NONE, B], scope, d) or self.e(rng.choice([L(u), L(u), T(u)]), scope, d)
             return ["EIn", self.e(u, scope, d), hay]
         if c == "in_x":     # 1 in [True], True in [0, 1]
             u, w = rng.choice([(N, B), (B, N), (S, N), (NONE, S)])
@@ -305,7 +311,10 @@ class G:
             return ["EToList", self.maybe_fault([N, NONE, B], scope, d) or self.e(rng.choice([t, T(u)]), scope, d)]
         if c == "mul":
             a = self.e(t, scope, d)
-            return ["EMul", a, self.maybe_fault([S, NONE, L(N)], scope, d) or self.e(N, scope, min(d, 1))]
+            n = self.maybe_fault([S, NONE, L(N)], scope, d) or self.e(N, scope, min(d, 1))
+            if rng.random() < 0.25 and n[0] not in ("ENat", "EStr", "EBool", "ENone"):
+                return ["EMul", n, a]            # number * sequence
+            return ["EMul", a, n]
         if c == "cond":
             return ["ECond", self.cond(scope, d), self.e(t, scope, d), self.e(t, scope, d)]
         if c == "index":
@@ -329,7 +338,11 @@ class G:
         vs = self.vars_of(scope, t)
         if not vs:
             return None
-        c = rng.choice(["var", "var", "mul", "cond"])
+        c = rng.choice(["var", "var", "mul", "cond", "add", "slice"])
+        if c == "add":
+            return ["EAdd", ["EVar", rng.choice(vs)], self.e(t, scope, d)]
+        if c == "slice":
+            return ["ESliceFrom", ["EVar", rng.choice(vs)], rng.choice([0, 1, 2])]
         if c == "mul":
             return ["EMul", ["EVar", rng.choice(vs)], ["ENat", rng.choice([0, 1, 2])]]
         if c == "cond":
